@@ -33,6 +33,9 @@ NAMES = ('my_field', 'id_num', 'url_path')
 FIELD_VARIANTS = (
     'plain', 'alias1', 'alias2', 'in_names', 'in_names+py', 'rename', 'out_name', 'alias+out', 'default', 'kw_default',
     'exclude', 'kw_required', 'factory', 'init_false', 'rename+out', 'in_names+out',
+    # Python names no style can split (a keyword with a trailing underscore, a leading underscore) given explicit data names:
+    # nothing has to be restyled, so any class style is fine with them
+    'unsplittable+rename', 'unsplittable+names',
 )
 CLASS_VARIANTS = (
     {}, {'allow_extra': True}, {'in_format': ('tuple',)}, {'in_format': ('struct', 'tuple')}, {'in_format': ('tuple', 'struct'), 'out_format': 'tuple'},
@@ -67,6 +70,10 @@ def make_field(idx, variant):
     elif variant == 'kw_required': f.kw_only = True
     elif variant == 'init_false': f.dflt, f.dval, f.init = 'val', dv, False
     elif variant == 'factory': f.ty, f.dflt, f.dval = Ty('list', [Ty('int')]), 'fac', list
+    elif variant == 'unsplittable+rename':
+        f.name, f.rename = ('from_', 'class_', 'id_')[idx], ('from', 'class', 'id')[idx]
+    elif variant == 'unsplittable+names':
+        f.name, f.in_names, f.out_name = ('_lo', '_hi', '_mid')[idx], ((a1, f"x{idx}"), f"out{idx}")[0], f"out{idx}"
     return f
 
 
@@ -216,6 +223,10 @@ def run(ctx):
                 if err is not None:
                     ctx.count('type_build_failed')
                     ctx.mark('type_build_errors', f"{fv}/{copts}: {type(err).__name__}: {str(err)[:80]}")
+                    if type(err).__name__ != 'TypingCacheReordered':
+                        # every configuration of the table is a legal class definition: one that cannot even be defined binds nothing
+                        ctx.violation('decision-table', 'table', i, {'class': S.brief(), 'class_definition': f"{type(err).__name__}: {str(err)[:200]}"},
+                                      mech=f"class-definition-failed:{type(err).__name__}")
                     continue
                 ctx.count('configurations')
                 checked_output = False
